@@ -92,6 +92,7 @@ def c08(rep, tier):
     r_scope.run_rtcalls(p, rep, only=["liquid_lib::stdlib::tags::include_tag::Include", "liquid_lib::stdlib::tags::render_tag::Render"])
     r_scope.run_argeval(p, rep)
     r_scope.run_args_loud(p, rep)
+    r_scope.run_bind_order(p, rep)
     r_pair.check_loop_reset(p, rep, "<liquid_lib::stdlib::tags::render_tag::Render as liquid_core::runtime::renderable::Renderable>::render_to", "Render::render_to(for)")
     r_partials.run_loud(p, rep)
     r_partials.run_no_skip(p, rep)
@@ -154,6 +155,7 @@ def c06(rep, tier):
     r_cmp.run_contains(p, rep)
     r_cmp.run_cmp_orientation(p, rep)
     r_cmp.run_mirror(p, rep)
+    r_cmp.run_value_symmetry(p, rep)
     r_table.run_missing_key_eq(p, rep)
     r_parsers.run_when_values(p, rep)
     r_pair.run_argflow(p, rep)
@@ -169,6 +171,7 @@ def c09(rep, tier):
     r_scope.run_newruntime(p, rep)
     r_lock.run_lock(p, rep)
     r_partials.run_cache_key(p, rep)
+    r_partials.run_list_order(p, rep)
     r_freeze.run_autos(p, rep)
     r_utf8sink.run_unsafe(p, rep)
     rep.analysed["config:all"] = {"bodies": len(p.fns)}
@@ -193,6 +196,7 @@ def c19(rep, tier):
     r_partials.run_name_keyed(p, rep)
     r_partials.run_source_keyed(p, rep)
     r_partials.run_cache_key(p, rep)
+    r_partials.run_list_order(p, rep)
     r_partials.run_loud(p, rep)
     r_lock.run_lock(p, rep)
     # on-demand compiles a partial again on every use, eager/lazy once: the policies agree only if compiling is a pure
@@ -260,7 +264,7 @@ def c14(rep, tier):
     r_table.run_missing_key_eq(p, rep)
     r_table.run_filter_ops(p, rep, only=["array::"])
     r_table.run_missing_property(p, rep)
-    r_table.run_state_use(p, rep, only=["WhereFilter"])
+    r_table.run_state_use(p, rep, only=["WhereFilter", "CompactFilter"])
     rep.analysed["config:all"] = {"bodies": len(p.fns)}
 
 
@@ -390,6 +394,8 @@ def c17(rep, tier):
     r_table.run_sign(p, rep)
     r_table.run_parse_formats(p, rep)
     r_table.run_case_flag(p, rep)
+    r_table.run_width_class(p, rep)
+    r_table.run_subsec_selector(p, rep)
     r_table.run_date_formats(p, rep)
     r_table.run_date_cmp(p, rep)
     import r_strslice
